@@ -18,6 +18,9 @@ theorem truth_ofTV (t : TV) : truth (ofTV t) = t := by
   | none => rfl
   | some b => cases b <;> rfl
 
+theorem fnVal_concat (vs : List Val) : fnVal "concat" vs = concatAllVal vs := by
+  simp [fnVal]
+
 theorem coreBin_not_div {op : Op} (h : coreBin op = true) : coreDiv op = false := by
   cases op <;> simp [coreBin] at h <;> rfl
 
@@ -220,7 +223,16 @@ theorem evalG_render (env : String → Val) (d : Dialect) :
   | .binary op l r n esc ty, hc => by
     simp only [Core, Bool.and_eq_true] at hc
     rcases coreBinD_cases hc.1.1.1 with hop | hdiv
-    · obtain ⟨txt, heq⟩ := render_coreBin d true op l r n esc ty hop
+    · by_cases hcf : catFn d op = true
+      · rw [render_catFn_bin d true op l r n esc ty hcf]
+        obtain ⟨ho, _⟩ := catFn_true hcf
+        subst ho
+        show SV.s (fnVal "concat" ((evalG (stdI env) (render d true l)).items ++
+          (evalG (stdI env) (render d true r)).items)) = _
+        rw [evalG_render env d l hc.1.2, evalG_render env d r hc.2, fnVal_concat,
+          evalCore_binary env d .concat_op l r n esc ty rfl]
+        rfl
+      obtain ⟨txt, heq⟩ := render_coreBin d true op l r n esc ty hop (by simpa using hcf)
       rw [heq]
       show stdInf (symOf op) (evalG (stdI env) (render d true l)) (evalG (stdI env) (render d true r)) = _
       rw [evalG_render env d l hc.1.2, evalG_render env d r hc.2, stdInf_core op (Or.inl hop),
@@ -242,8 +254,21 @@ theorem evalG_render (env : String → Val) (d : Dialect) :
   | .clist op cs gr bl ty, hc => by
     simp only [Core, Bool.and_eq_true, decide_eq_true_eq] at hc
     obtain ⟨⟨⟨hop, _⟩, hlen⟩, hcs⟩ := hc
-    rw [render_clist d true op cs gr bl ty (coreList_ne_concat hop)]
     have hl := evalG_renderList env d cs hcs
+    by_cases hcf : catFn d op = true
+    · rw [render_catFn_list d true op cs gr bl ty hcf]
+      obtain ⟨ho, _⟩ := catFn_true hcf
+      subst ho
+      have hne : renderList d true cs ≠ [] := by
+        cases cs with
+        | nil => simp at hlen
+        | cons a as => simp [renderList_cons]
+      show SV.s (fnVal "concat" (evalG (stdI env) (chain .comma ", " (renderList d true cs))).items) = _
+      rw [items_chain_comma env _ _ hne hl, fnVal_concat]
+      cases cs with
+      | nil => simp at hlen
+      | cons c cs' => rfl
+    rw [render_clist d true op cs gr bl ty (by simpa using hcf)]
     cases cs with
     | nil => simp at hlen
     | cons c cs =>
@@ -391,6 +416,7 @@ theorem binVal_assoc (op : Op) (h : coreList op = true) (a b c : Val) :
   cases op <;> simp [coreList] at h
   · cases a <;> cases b <;> cases c <;> simp [binVal, evalArith, Int.add_assoc]
   · cases a <;> cases b <;> cases c <;> simp [binVal, evalArith, Int.mul_assoc]
+  · cases a <;> cases b <;> cases c <;> simp [binVal, evalArith, String.append_assoc]
   · simp only [binVal, evalArith, truth_ofTV]
     congr 1
     cases truth a with
@@ -868,7 +894,7 @@ theorem caseSimple_eval (env : String → Val) (d : Dialect) (v : Val) :
     | [], h => simp at h
     | [_], h => simp at h; omega
 
-theorem booleanCompare_num_eq (x y : SaExpr) (k : BinK) (hk : cmpK k = true) (hy : NumE y) :
+theorem booleanCompare_num_eq (x y : SaExpr) (k : BinK) (hk : cmpK k = true) (hy : OpndE y) :
     booleanCompare x k.op y (negateOp k.op) none =
       some (constructForOp x y k.op .bool (negateOp k.op) none) := by
   have hs := hy.shape
@@ -1111,6 +1137,75 @@ theorem build_searched_eval (env : String → Val) (d : Dialect) : ∀ (us : Lis
           have ih := build_searched_eval env d rest rest' hu.2 hn.2.2 h3 tail
           simp only [evalCoreList, List.cons_append, caseSearchedVal, evalSearched, bc, nr, ih]
 
+/-- **build_str_eval**: the element built for a string-valued tree has the tree's value -/
+theorem build_str_eval (env : String → Val) (d : Dialect) : ∀ (u : U) (e : SaExpr), StrU u = true →
+    noIsGen u = true → build u = some e → evalCore env d e = evalNumU env d u
+  | .col n ty, e, _, _, hb => by
+    simp only [build, Option.some.injEq] at hb; subst hb; simp only [evalCore, evalNumU]
+  | .ls s, e, _, _, hb => by
+    simp only [build, Option.some.injEq] at hb; subst hb; simp only [evalCore, evalNumU, litVal]
+  | .bin k a b, e, hu, hn, hb => by
+    simp only [StrU, Bool.and_eq_true, Bool.or_eq_true, decide_eq_true_eq] at hu
+    obtain ⟨⟨hk, hua⟩, hub⟩ := hu
+    subst hk
+    simp only [noIsGen, Bool.and_eq_true] at hn
+    simp only [build] at hb
+    cases ha : build a with
+    | none => simp [ha] at hb
+    | some x =>
+      cases hb' : build b with
+      | none => simp [ha, hb'] at hb
+      | some y =>
+        simp only [ha, hb', BinK.isArith, if_true, Option.some.injEq] at hb
+        subst hb
+        have nx : OpndE x := by
+          rcases hua with h | h
+          · exact build_str a x h ha
+          · exact (build_num a x h ha).opnd
+        have ny : OpndE y := by
+          rcases hub with h | h
+          · exact build_str b y h hb'
+          · exact (build_num b y h hb').opnd
+        have ex : evalCore env d x = evalNumU env d a := by
+          rcases hua with h | h
+          · exact build_str_eval env d a x h hn.1.2 ha
+          · exact build_num_eval env d a x h hn.1.2 ha
+        have ey : evalCore env d y = evalNumU env d b := by
+          rcases hub with h | h
+          · exact build_str_eval env d b y h hn.2 hb'
+          · exact build_num_eval env d b y h hn.2 hb'
+        have h1 := adapt_concat (tyOf x) (tyOf y)
+        show evalCore env d (binaryOperate x .concat_op y) = _
+        unfold binaryOperate
+        have e : adaptExpression .concat_op (tyOf x) (tyOf y) =
+            (.concat_op, (adaptExpression .concat_op (tyOf x) (tyOf y)).2) := Prod.ext h1 rfl
+        rw [e]
+        simp only
+        rw [constructForOp_eval env d x y .concat_op _ none rfl nx.core nx.wg ny.core ny.wg, ex, ey]
+        simp only [evalNumU, BinK.op]
+  | .li _, _, hu, _, _ => by simp [StrU] at hu
+  | .ln _, _, hu, _, _ => by simp [StrU] at hu
+  | .lb _, _, hu, _, _ => by simp [StrU] at hu
+  | .null, _, hu, _, _ => by simp [StrU] at hu
+  | .true_, _, hu, _, _ => by simp [StrU] at hu
+  | .false_, _, hu, _, _ => by simp [StrU] at hu
+  | .like _ _ _ _, _, hu, _, _ => by simp [StrU] at hu
+  | .neg _, _, hu, _, _ => by simp [StrU] at hu
+  | .not_ _, _, hu, _, _ => by simp [StrU] at hu
+  | .between _ _ _, _, hu, _, _ => by simp [StrU] at hu
+  | .and_ _, _, hu, _, _ => by simp [StrU] at hu
+  | .or_ _, _, hu, _, _ => by simp [StrU] at hu
+  | .case_ _ _ _, _, hu, _, _ => by simp [StrU] at hu
+  | .cast _ _, _, hu, _, _ => by simp [StrU] at hu
+  | .coalesce _, _, hu, _, _ => by simp [StrU] at hu
+  | .subq _ _, _, hu, _, _ => by simp [StrU] at hu
+  | .inOp _ _ _, _, hu, _, _ => by simp [StrU] at hu
+  | .tupleIn _ _ _, _, hu, _, _ => by simp [StrU] at hu
+  | .pi _, _, hu, _, _ => by simp [StrU] at hu
+  | .ps _, _, hu, _, _ => by simp [StrU] at hu
+  | .strop _ _ _ _, _, hu, _, _ => by simp [StrU] at hu
+  | .absent, _, hu, _, _ => by simp [StrU] at hu
+
 /-- **build_bool_eval**: the element built for a boolean API-call tree evaluates to the tree's
     three-valued meaning (and records sound negations), for every row -/
 theorem build_bool_eval (env : String → Val) (d : Dialect) : ∀ (u : U) (e : SaExpr), BoolU u = true →
@@ -1127,9 +1222,16 @@ theorem build_bool_eval (env : String → Val) (d : Dialect) : ∀ (u : U) (e : 
     cases ha : build a with
     | none => simp [ha] at hb
     | some x =>
-      have nx := build_num a x hna ha
-      have hpl : isPyLit a = false := by cases a <;> first | rfl | (simp [NumU] at hna)
-      have ex := build_num_eval env d a x hna hn3.1 ha
+      have nx : OpndE x := by
+        rcases hna with h | h
+        · exact (build_num a x h ha).opnd
+        · exact build_str a x h ha
+      have hpl : isPyLit a = false := by
+        cases a <;> first | rfl | (rcases hna with h | h <;> simp [NumU, StrU] at h)
+      have ex : evalCore env d x = evalNumU env d a := by
+        rcases hna with h | h
+        · exact build_num_eval env d a x h hn3.1 ha
+        · exact build_str_eval env d a x h hn3.1 ha
       cases hb' : build b with
       | none => simp [ha, hb'] at hb
       | some y =>
@@ -1146,7 +1248,7 @@ theorem build_bool_eval (env : String → Val) (d : Dialect) : ∀ (u : U) (e : 
             | some k' => simpa [hr] using hb
           have hk4 : k = .eq ∨ k = .ne ∨ k = .is_ ∨ k = .isnot := by
             rcases hbb with h | h
-            · simp [NumU] at h
+            · rcases h with h | h <;> simp [NumU, StrU] at h
             · simpa [Bool.or_eq_true, or_assoc] using h
           have hnull : Core SaExpr.null = true ∧ WG SaExpr.null = true := ⟨rfl, rfl⟩
           have key : ∀ (op' n' : Op), coreBin op' = true → associative op' = false →
@@ -1172,12 +1274,18 @@ theorem build_bool_eval (env : String → Val) (d : Dialect) : ∀ (u : U) (e : 
           · exact key .is_not .is_ rfl (by decide) ⟨soundPair_is.2, soundPair_is.1⟩ rfl
               (by simp [binVal, truth_ofTV, evalBoolU])
         ·
-          have hnb : NumU b = true := by
+          have hnb : NumU b = true ∨ StrU b = true := by
             rcases hbb with h | h
             · exact h
             · exact absurd (null_of_match b k h) hbn
-          have ny := build_num b y hnb hb'
-          have ey := build_num_eval env d b y hnb hn3.2 hb'
+          have ny : OpndE y := by
+            rcases hnb with h | h
+            · exact (build_num b y h hb').opnd
+            · exact build_str b y h hb'
+          have ey : evalCore env d y = evalNumU env d b := by
+            rcases hnb with h | h
+            · exact build_num_eval env d b y h hn3.2 hb'
+            · exact build_str_eval env d b y h hn3.2 hb'
           have hpr := pyReflected_num x y ny
           simp only [hpr, hpl, Bool.or_false, Bool.false_eq_true, if_false] at hb
           have hb2 : booleanCompare x k.op y (negateOp k.op) none = some e := by
